@@ -19,7 +19,7 @@ def run(ctx) -> None:
                 "canonical state = reference state + the module-internal dict keys (a refinement, so merged states have the same futures).")
     ctx.assumptions = ["re-registering a built-in class object under a new symbol is outside the alphabet",
                        "ideal reset semantics: reset(elements=True) also forgets the privacy flags of user symbols"]
-    depth = 7 if thorough else 4
+    depth = 6 if thorough else 4
     explore.bfs(ctx, MODEL, {}, depth, label=f"registry depth<={depth}", chunk=4)
     ctx.traces = ctx.transitions
     ctx.extra["note"] = "every explored transition is executed on the real registry; traces_validated = transitions"
